@@ -108,9 +108,11 @@ def missing (db : SDb) (l : List Str) : List Str := l.filter fun c => (find db c
 def present (db : SDb) (l : List Str) : List Str := l.filter fun c => (find db c).isSome
 
 /-- The ordering proviso under which reading filtered by the citations is the same as reading
-everything (BibTeX documents the same restriction): every parent referenced by a cited entry
-is itself cited, or absent from the file altogether, or occurs in the file after the (first,
-i.e. effective) entry of one of the cited children that reference it.  `file` is the raw file. -/
+everything (BibTeX documents the same restriction).  `file` is the raw file, duplicates included.
+For every citation `c`, with `e` the entry that counts for `c` (the first one of the file with
+that key): if `e` cross-references `x`, then `x` is itself cited, or no entry of the file has
+key `x`, or an entry with key `x` occurs in the file after the entry that counts for one of
+the cited keys and cross-references `x`.  A wildcard citation makes every entry wanted. -/
 def laterOccurs (l : List Str) (x : Str) : (seen : List Str) → (file : List SEntry) → Bool
   | _, [] => false
   | seen, e :: r =>
@@ -121,8 +123,8 @@ def laterOccurs (l : List Str) (x : Str) : (seen : List Str) → (file : List SE
 
 def proviso (file : List SEntry) (citations : List Str) : Bool :=
   citations.contains star ||
-  (expanded (readAll file) citations).all fun c =>
-    match find (readAll file) c with
+  citations.all fun c =>
+    match file.find? fun e => keq e.key c with
     | none => true
     | some e =>
       match e.crossref with
